@@ -172,4 +172,61 @@ def unit2Calls : List (String × String × String × String) := [
   ("Annotation", "write", "write_bytes", "f, self.data")
 ]
 
+/-! ### unit 3: effects_layer.py -/
+
+def effectTypes : List (List UInt8 × String) := [([99, 109, 110, 83], "CommonStateInfo"), ([100, 115, 100, 119], "ShadowInfo"), ([105, 115, 100, 119], "ShadowInfo"), ([111, 103, 108, 119], "OuterGlowInfo"), ([105, 103, 108, 119], "InnerGlowInfo"), ([98, 101, 118, 108], "BevelInfo"), ([115, 111, 102, 105], "SolidFillInfo")]
+def effectKeys : List (List UInt8) := [[98, 101, 118, 108], [99, 109, 110, 83], [100, 115, 100, 119], [105, 103, 108, 119], [105, 115, 100, 119], [111, 103, 108, 119], [115, 111, 102, 105]]
+def effectConditions : List (String × String × String) := [
+  ("OuterGlowInfo", "read", "version >= 2"),
+  ("OuterGlowInfo", "write", "self.native_color"),
+  ("InnerGlowInfo", "read", "version >= 2"),
+  ("InnerGlowInfo", "write", "self.version >= 2"),
+  ("BevelInfo", "read", "version >= 2"),
+  ("BevelInfo", "write", "self.version >= 2")
+]
+def unit3Registry : List (List UInt8 × String) := [
+  ([108, 114, 70, 88], "EffectsLayer")
+]
+def unit3Calls : List (String × String × String × String) := [
+  ("CommonStateInfo", "read", "read_fmt", "'IB2x', fp"),
+  ("CommonStateInfo", "write", "write_fmt", "fp, 'IB2x', *attr.astuple(self)"),
+  ("ShadowInfo", "read", "read_fmt", "'IIIiI', fp"),
+  ("ShadowInfo", "read", "read_fmt", "'4s', fp"),
+  ("ShadowInfo", "read", "read_fmt", "'4s', fp"),
+  ("ShadowInfo", "read", "read_fmt", "'3B', fp"),
+  ("ShadowInfo", "write", "write_fmt", "fp, 'IIIiI', self.version, self.blur, self.intensity, self.angle, self.distance"),
+  ("ShadowInfo", "write", "write_fmt", "fp, '4s4s3B', b'8BIM', self.blend_mode.value, self.enabled, self.use_global_angle, self.opacity"),
+  ("_GlowInfo", "_read_body", "read_fmt", "'III', fp"),
+  ("_GlowInfo", "_read_body", "read_fmt", "'4s', fp"),
+  ("_GlowInfo", "_read_body", "read_fmt", "'4s', fp"),
+  ("_GlowInfo", "_read_body", "read_fmt", "'2B', fp"),
+  ("_GlowInfo", "_write_body", "write_fmt", "fp, 'III', self.version, self.blur, self.intensity"),
+  ("_GlowInfo", "_write_body", "write_fmt", "fp, '4s4s2B', b'8BIM', self.blend_mode.value, self.enabled, self.opacity"),
+  ("OuterGlowInfo", "read", "<none>", ""),
+  ("OuterGlowInfo", "write", "<none>", ""),
+  ("InnerGlowInfo", "read", "read_fmt", "'B', fp"),
+  ("InnerGlowInfo", "write", "write_fmt", "fp, 'B', self.invert"),
+  ("BevelInfo", "read", "read_fmt", "'Ii2I', fp"),
+  ("BevelInfo", "read", "read_fmt", "'4s4s', fp"),
+  ("BevelInfo", "read", "read_fmt", "'4s4s', fp"),
+  ("BevelInfo", "read", "read_fmt", "'3B', fp"),
+  ("BevelInfo", "read", "read_fmt", "'3B', fp"),
+  ("BevelInfo", "write", "write_fmt", "fp, 'Ii2I', self.version, self.angle, self.depth, self.blur"),
+  ("BevelInfo", "write", "write_fmt", "fp, '4s4s4s4s', b'8BIM', self.highlight_blend_mode.value, b'8BIM', self.shadow_blend_mode.value"),
+  ("BevelInfo", "write", "write_fmt", "fp, '6B', self.bevel_style, self.highlight_opacity, self.shadow_opacity, self.enabled, self.use_global_angle, self.direction"),
+  ("SolidFillInfo", "read", "read_fmt", "'I', fp"),
+  ("SolidFillInfo", "read", "read_fmt", "'4s4s', fp"),
+  ("SolidFillInfo", "read", "read_fmt", "'2B', fp"),
+  ("SolidFillInfo", "write", "write_fmt", "fp, 'I4s4s', self.version, b'8BIM', self.blend_mode.value"),
+  ("SolidFillInfo", "write", "write_fmt", "fp, '2B', self.opacity, self.enabled"),
+  ("EffectsLayer", "read", "read_fmt", "'2H', fp"),
+  ("EffectsLayer", "read", "read_fmt", "'4s', fp"),
+  ("EffectsLayer", "read", "read_fmt", "'4s', fp"),
+  ("EffectsLayer", "read", "read_length_block", "fp"),
+  ("EffectsLayer", "write", "write_fmt", "fp, '2H', self.version, len(self)"),
+  ("EffectsLayer", "write", "write_fmt", "fp, '4s4s', b'8BIM', key.value"),
+  ("EffectsLayer", "write", "write_length_block", "fp, self[key].write"),
+  ("EffectsLayer", "write", "write_padding", "fp, written, 4")
+]
+
 end PsdVerif.Payload.Tables
